@@ -13,7 +13,8 @@ EXPLORE_OPTS = {'max_paths': 60000, 'max_seconds': 900}
 
 def setup(symbolic):
     if symbolic:
-        from vxlib.symx import shims
+        from vxlib.symx import shims, loader
+        loader.install()
         shims.install()
 
 
